@@ -147,6 +147,8 @@ impl Call {
             Some((CopyMode::All(_), _)) => "chmod_all",
             Some((CopyMode::Dirs(_), _)) => "chmod_dirs",
             Some((CopyMode::Files(_), _)) => "chmod_files",
+            Some((CopyMode::DirsThenAll(..), _)) => "chmod_dirs.chmod_all",
+            Some((CopyMode::FilesThenAll(..), _)) => "chmod_files.chmod_all",
             _ => "no-chmod",
         }
     }
@@ -159,6 +161,7 @@ impl Call {
             Some((CopyMode::All(m), _)) => (Some(*m), Some(*m)),
             Some((CopyMode::Dirs(m), _)) => (Some(*m), None),
             Some((CopyMode::Files(m), _)) => (None, Some(*m)),
+            Some((CopyMode::DirsThenAll(_, m), _)) | Some((CopyMode::FilesThenAll(_, m), _)) => (Some(*m), Some(*m)),
             _ => (None, None),
         }
     }
@@ -186,6 +189,8 @@ impl Call {
                     "chmod_all" => CopyMode::All(OPT_MODE),
                     "chmod_dirs" => CopyMode::Dirs(OPT_MODE),
                     "chmod_files" => CopyMode::Files(OPT_MODE),
+                    "chmod_dirs.chmod_all" => CopyMode::DirsThenAll(0o711, OPT_MODE),
+                    "chmod_files.chmod_all" => CopyMode::FilesThenAll(0o604, OPT_MODE),
                     _ => CopyMode::None,
                 },
                 follow,
@@ -203,7 +208,8 @@ pub fn all_calls() -> Vec<Call> {
     for src in &ns {
         for dst in &dsts {
             for follow in [false, true] {
-                for m in [CopyMode::None, CopyMode::All(OPT_MODE), CopyMode::Dirs(OPT_MODE), CopyMode::Files(OPT_MODE)] {
+                // (the last two: a narrowing option followed by chmod_all on the same builder - the later, wider call decides)
+                for m in [CopyMode::None, CopyMode::All(OPT_MODE), CopyMode::Dirs(OPT_MODE), CopyMode::Files(OPT_MODE), CopyMode::DirsThenAll(0o711, OPT_MODE), CopyMode::FilesThenAll(0o604, OPT_MODE)] {
                     out.push(Call { src: src.clone(), dst: dst.clone(), copy: Some((m, follow)) });
                 }
             }
